@@ -154,6 +154,24 @@ def run_checks(ctx, msg, exprs_pool, origin):
     from pybufrkit.dataquery import QueryResult
     rng = ctx.rng
     bq = BufrMessageQuerent()
+    # scripts WITHOUT any embedded expression (none at all / only inside literals and comments): "every expression starts
+    # with %" holds vacuously, so only metadata is needed; the two PBK_ names are still bound
+    for script in ('x = 1\n', '', "lit = 'a ${001001} b'  # ${%length}\nname = PBK_FILENAME\n", '# only a comment ${012001}\n'):
+        ctx.count('metadata_only_checks')
+        ctx.count('scripts_without_expressions')
+        ctx.evaluated((script, 'no-expr', id(msg) % 1000, origin), True)
+        try:
+            runner = ScriptRunner(script)
+            variables = runner.run(msg)
+        except Exception as e:
+            ctx.violate('run-raises:%s/no-expressions' % type(e).__name__, 'running %r raised %s' % (script, type(e).__name__),
+                        dict(script=script, origin=origin), exc=e)
+            continue
+        if runner.metadata_only is not True:
+            ctx.violate('metadata_only-flag/no-expressions', 'metadata_only is %r for a script without embedded expressions'
+                        % (runner.metadata_only,), dict(script=script, origin=origin))
+        if variables.get('PBK_BUFR_MESSAGE') is not msg or variables.get('PBK_FILENAME') != msg.filename:
+            ctx.violate('message-binding', 'PBK_BUFR_MESSAGE / PBK_FILENAME not bound to the message', dict(script=script, origin=origin))
     for _ in range(3 if ctx.quick else 6):
         n = rng.randint(1, 4)
         chosen = [rng.choice(exprs_pool) for _ in range(n)]
@@ -168,13 +186,19 @@ def run_checks(ctx, msg, exprs_pool, origin):
         body = '\n'.join(lines) + '\n'
         md_only = all(e.startswith('%') for e in chosen)
         results = {}
-        for level, how in ((1, 'default'), (0, 'arg'), (1, 'arg'), (2, 'arg'), (4, 'arg'), (2, 'pragma'), (4, 'pragma'), (0, 'pragma')):
+        for level, how in ((1, 'default'), (0, 'arg'), (1, 'arg'), (2, 'arg'), (4, 'arg'), (2, 'pragma'), (4, 'pragma'), (0, 'pragma'),
+                           (2, 'pragma-second-line'), (0, 'pragma-second-line'), (4, 'pragma-after-comma')):
             script = body
             kw = {}
             if how == 'arg':
                 kw['data_values_nest_level'] = level
             elif how == 'pragma':
                 script = '#$ data_values_nest_level = %d\n' % level + body
+            elif how == 'pragma-second-line':
+                # the pragma header is every leading '#$' line, not just the first
+                script = '#$ some_other_directive = 1\n#$ data_values_nest_level = %d\n' % level + body
+            elif how == 'pragma-after-comma':
+                script = '#$ some_other_directive = 1, data_values_nest_level = %d\n' % level + body
             ctx.count('runs')
             ctx.evaluated((script, level, how, id(msg) % 1000, origin), True)
             try:
@@ -250,11 +274,12 @@ def run_checks(ctx, msg, exprs_pool, origin):
                                 dict(expr=e, origin=origin))
         # pragma gives the same as the argument; argument beats pragma
         for level in (0, 2, 4):
-            if (level, 'pragma') in results and (level, 'arg') in results:
-                ctx.count('pragma_vs_argument_checks')
-                if results[(level, 'pragma')] != results[(level, 'arg')]:
-                    ctx.violate('pragma-differs-from-argument', 'pragma level %d and argument level %d give different values' % (level, level),
-                                dict(script=body, origin=origin))
+            for how in ('pragma', 'pragma-second-line', 'pragma-after-comma'):
+                if (level, how) in results and (level, 'arg') in results:
+                    ctx.count('pragma_vs_argument_checks')
+                    if results[(level, how)] != results[(level, 'arg')]:
+                        ctx.violate('pragma-differs-from-argument/' + how, 'level %d given by pragma (%s) and by argument give different values'
+                                    % (level, how), dict(script=body, origin=origin, how=how))
         try:
             ctx.count('pragma_vs_argument_checks')
             r = ScriptRunner('#$ data_values_nest_level = 4\n' + body, data_values_nest_level=1).run(msg)
